@@ -115,6 +115,13 @@ type Case struct {
 	InChunks int        `json:"in_chunks,omitempty"`
 	Store    bool       `json:"store,omitempty"` // compiled with a checkpoint store, called with a checkpoint id; an interrupted run is resumed until it ends
 	Eager    bool       `json:"eager,omitempty"` // every graph level is built with compose.NewWorkflow (eager task collection)
+	// a call that resumes an interrupted run fails in the prologue of the run, before anything is restored:
+	// "store" = the checkpoint store fails when the checkpoint is read; "stale" = the call is made by a newer
+	// build of the graph (same store, same checkpoint id) in which every node that has not completed yet has
+	// another key, so the pending tasks of the checkpoint belong to no node. The FaultAt-th call of the
+	// sequence (counted from 0, > 0) is the one; a sequence that does not get that far has no such call.
+	ResumeFault string `json:"resume_fault,omitempty"`
+	FaultAt     int    `json:"fault_at,omitempty"`
 	Seed     uint64     `json:"seed,omitempty"`
 	// stream
 	NH   int    `json:"nh,omitempty"`   // number of handlers passed to InitCallbacks
@@ -132,6 +139,7 @@ type evt struct {
 	T       int    `json:"t"`
 	Name    string `json:"name"`
 	Comp    string `json:"comp,omitempty"`
+	Type    string `json:"type,omitempty"` // RunInfo.Type: the implementation type of the unit's component
 	Payload string `json:"payload,omitempty"`
 	Full    bool   `json:"-"` // the payload was read completely
 	L       int    `json:"-"` // payload label (graph cases): see lblIn .. lblOther
@@ -147,7 +155,7 @@ type sink struct {
 func (s *sink) add(h, t int, info *callbacks.RunInfo, payload string, full bool) *evt {
 	e := &evt{U: s.curU, H: h, T: t, Payload: payload, Full: full}
 	if info != nil {
-		e.Name, e.Comp = info.Name, string(info.Component)
+		e.Name, e.Comp, e.Type = info.Name, string(info.Component), info.Type
 	} else {
 		e.Name = "<nil info>"
 	}
